@@ -114,7 +114,7 @@ class NodePathParser(object):
         self.current_slice_elements = []
 
     def parse(self, path_expr):
-        path_expr_stripped = path_expr.strip()
+        path_expr_stripped = path_expr.strip(string.whitespace)  # the same characters the loop below ignores
 
         if path_expr_stripped == '':
             raise PathExprParsingError('Empty path expression')
